@@ -156,8 +156,27 @@ protected:
   /// Insert element separator if needed
   void InsertElementSeparator();
 
-  void DoWrite(const char* s) { DoWriteString(s); }
-  void DoWrite(const std::string& s) { DoWriteString(s); }
+  void DoWrite(const char* s) { DoWriteString(EscapeString(s)); }
+  void DoWrite(const std::string& s) { DoWriteString(EscapeString(s)); }
+
+  /// Escape quotes, backslashes and control characters
+  static std::string EscapeString(const std::string& s) {
+    std::string result;
+    result.reserve(s.size());
+    for (unsigned char c: s) {
+      if ('"'==c || '\\'==c) {
+        result += '\\';
+        result += (char)c;
+      } else if (c < 0x20) {
+        static const char* hex = "0123456789abcdef";
+        result += "\\u00";
+        result += hex[c >> 4];
+        result += hex[c & 15];
+      } else
+        result += (char)c;
+    }
+    return result;
+  }
 
   template <typename Arithmetic,
             typename
